@@ -18,7 +18,7 @@ from vmon.props import c11
 
 LEVEL = "exploration"
 SHARDS = {"quick": 16, "thorough": 16}
-MUST = ["write.twice", "write.via_write_xml", "cycle.g2g3_files", "write.after_parsing_packets", "write.after_other_writes", "history.variant_headers", "cycle.g2g3", "namespace.checked", "crossprocess.documents", "immutability.snapshots", "route.xml", "route.objects",
+MUST = ["write.twice", "directed.documents", "write.via_write_xml", "cycle.g2g3_files", "write.after_parsing_packets", "write.after_other_writes", "history.variant_headers", "cycle.g2g3", "namespace.checked", "crossprocess.documents", "immutability.snapshots", "route.xml", "route.objects",
         "style.prefix", "style.default", "style.none"]
 RULE = ("case = generated definition (both build routes; namespace conventions prefix xtce / custom prefix / default "
         "namespace / none) with a fixed header date: written twice in-process, again after it decoded packets, and again after other definitions (with / without a SpaceSystem name, other header "
@@ -70,10 +70,20 @@ def run(ctx):
     ids = [i for i in range(ctx.size(256, 20000)) if ctx.mine(i)]
     mine = {}
     pool = []     # (tag, definition, its first serialization): re-written later, after other definitions have been written
-    for i in ids:
+    # after the generated documents: the directed one-feature documents of C09 (spline points sharing a raw value, every optional
+    # attribute, every length form ...), numbered from DIRECTED upwards
+    from vmon.props.c09 import directed_docs
+    DIRECTED = 10 ** 6
+    dd = directed_docs()
+    todo = list(ids) + [DIRECTED + j for j in range(len(dd)) if ctx.mine(j)]
+    for i in todo:
         rng = random.Random(f"C15/{ctx.seed}/doc/{i}")
-        doc = gen.gen_document(rng)
-        if i % 4 == 3:
+        if i >= DIRECTED:
+            doc = dd[i - DIRECTED][1]
+            ctx.count("directed.documents")
+        else:
+            doc = gen.gen_document(rng)
+        if i % 4 == 3 and i < DIRECTED:
             # documents differ in their SpaceSystem name / header too: no name at all, other names, other header values
             import dataclasses
             doc = dataclasses.replace(doc, system_name=(None, "S-%d" % i, "")[(i // 4) % 3], version="%d.%d" % (i % 7, i % 3),
@@ -102,7 +112,7 @@ def run(ctx):
                 continue
             ctx.count("write.twice")
             G1 = w1.value
-            if i % 4 != 3:
+            if i % 4 != 3 and i < DIRECTED:
                 mine[f"{i}/{route}"] = hashlib.sha256(G1).hexdigest()
             pool.append((f"{i}/{route}", D, G1))
             if w2.exc is not None or w2.value != G1:
@@ -152,7 +162,7 @@ def run(ctx):
                 ctx.violation(f"{route}/cycle/g2-ne-g3", "the second and third generation documents differ", dict(wit, first_diff=first_diff(g2.value, g3.value)))
         if i < 2:
             ctx.sample({"doc": i, "style": style, "G1_sha256": mine.get(f"{i}/xml"), "features": fs[:8]})
-        if len(pool) >= 24 or i == ids[-1]:
+        if len(pool) >= 24 or i == todo[-1]:
             write_history(ctx, pool, random.Random(f"C15/{ctx.seed}/history/{i}"))
             pool.clear()
     # ---- the documents bundled with the repository (fixed date assigned through the public attribute) ---------------------
